@@ -79,16 +79,53 @@ def gen_scenario(rnd, size="small", jobs_heavy=False):
         w = rnd.choice(choices)
         jobs.append([w, j])
         new_job(j, w, 0)
+    # twins: the same callable scheduled twice for the same instant (the second takes the next job id)
+    twins = {}
+    if jobs and rnd.random() < 0.25:
+        w, lead = rnd.choice(jobs)
+        if not bjob.get(str(lead)) and not job_raise.get(str(lead)):
+            j2 = jid()
+            jobs.append([w, j2])
+            bjob[str(j2)] = []
+            job_susp[str(lead)] = 0
+            twins[str(j2)] = lead
     handlers = []
     for _ in kinds:
         n = rnd.randint(1, 3)
         handlers.append({"n": n, "susp": [rnd.choice([0, 0, 1, 2, 3]) for _ in range(n)],
-                         "raise": [rnd.random() < 0.15 for _ in range(n)], "dup": rnd.random() < 0.3})
+                         "raise": [rnd.random() < 0.15 for _ in range(n)], "dup": rnd.random() < 0.3,
+                         "flavour": [rnd.choice(["method", "method", "function", "partial", "object"]) for _ in range(n)]})
+    job_flavour = {k: rnd.choice(["function", "function", "partial", "object"]) for k in bjob}
     pre = [{"susp": rnd.choice([0, 1, 2]), "raise": rnd.random() < 0.1, "dup": rnd.random() < 0.3}
            for _ in range(rnd.choice([0, 0, 1, 2]))]
     post = [{"susp": rnd.choice([0, 1, 2]), "raise": rnd.random() < 0.1} for _ in range(rnd.choice([0, 0, 1, 2]))]
     return {"sources": sources, "kinds": kinds, "jobs": jobs, "bev": bev, "bjob": bjob, "handlers": handlers,
-            "pre": pre, "post": post, "mc": rnd.choice([1, 1, 2, 3, 50]), "job_susp": job_susp, "job_raise": job_raise}
+            "pre": pre, "post": post, "mc": rnd.choice([1, 1, 2, 3, 50]), "job_susp": job_susp, "job_raise": job_raise,
+            "twins": twins, "job_flavour": job_flavour}
+
+
+def gen_long(rnd, n=1100):
+    """One source with more than a thousand events (a few ties), a derived source fed by every seventh event, a
+    few jobs: long enough for chunked / capped containers to wrap around."""
+    evs, t, e = [], 10, 0
+    bev = {}
+    for i in range(n):
+        e += 1
+        evs.append([t, e])
+        if rnd.random() < 0.85:
+            t += rnd.choice([1, 2, 5])
+    der = []
+    next_e = e
+    for w, ev in evs:
+        if ev % 7 == 0:
+            next_e += 1
+            bev[str(ev)] = [["push", 1, w, next_e]]
+            bev[str(next_e)] = []
+    jobs = [[rnd.choice([5, evs[n // 2][0], evs[-1][0] + 3]), j + 1] for j in range(3)]
+    return {"sources": [evs, der], "kinds": ["prim", "der"], "jobs": jobs, "bev": bev, "bjob": {},
+            "handlers": [{"n": 1, "susp": [0], "raise": [False], "dup": False},
+                         {"n": 1, "susp": [0], "raise": [False], "dup": False}],
+            "pre": [], "post": [], "mc": rnd.choice([1, 3, 50]), "job_susp": {}, "job_raise": {}}
 
 
 def gen_job_permutation(times_ins, events_at=(5,)):
